@@ -118,6 +118,7 @@ def run(tier, deadline):
     envs = {v: dict(os.environ, CAT_LIB=vbuild.build(v)) for v in (("prod",) if tier == "quick" else ("prod", "dist"))}
     NS = 16
     jobs = [("prod", tier, j) for j in [["norm", vf, str(i), str(NS)] for i in range(NS)] + [["fold", ff, str(i), str(NS)] for i in range(NS)] + [["range"]]]
+    jobs += [("prod", tier, ["sortstab"])]      # long mark runs with the C library's internal allocations refused
     # a process that never calls setlocale is in the "C" locale whatever its environment says: folding must not depend on LANG / LC_*
     for xe in ({"LANG": "tr_TR.UTF-8"}, {"LC_ALL": "lt_LT.UTF-8"}, {"LC_CTYPE": "az_AZ"}):
         jobs += [("prod", tier, ["fold", ff, str(i), "4"], dict(xe, C17_NOLOCALE="1")) for i in range(4)]
